@@ -182,7 +182,7 @@ func (w *c03TWorld) localGrant(i int, n int) {
 		bound := float64(w.burst) + float64(w.rate)*el
 		// x/time/rate rounds the refill interval to whole ns: relative slack 1e-6 is ample
 		if float64(sum) > bound*(1+1e-6)+1e-6 {
-			w.fail("store unreachable: instance %d granted %d tokens on its own within %.3f s, spread over %d outage episode(s) (local grants {t ms, n}: %v), bound burst + rate x elapsed = %.3f",
+			w.fail("store unreachable: instance %d granted %d tokens on its own within %.3f s (it has granted locally in %d outage episode(s) so far; local grants of the interval {t ms, n}: %v), bound burst + rate x elapsed = %.3f",
 				i, sum, el, in.grantEp, in.grants[j:], bound)
 		}
 	}
@@ -280,9 +280,6 @@ func (w *c03TWorld) waitAlive(idx []int) {
 		}
 		if time.Since(t0) > w.budget {
 			w.st.Class("inconclusive:recovery-budget-overrun")
-			if c03Debug {
-				fmt.Fprintf(os.Stderr, "C03DEBUG wait OVERRUN %v\n", w.log.String())
-			}
 			w.abort("instances %v not back on the store %v after it became reachable (ping loop is 100 ms; wall-clock budget, not a verdict)", idx, w.budget)
 		}
 		time.Sleep(2 * time.Millisecond)
@@ -291,9 +288,7 @@ func (w *c03TWorld) waitAlive(idx []int) {
 		c03RecOK++
 		w.st.Class("recovery:completed")
 	}
-	if c03Debug {
-		fmt.Fprintf(os.Stderr, "C03DEBUG wait %v needed=%v\n", time.Since(t0).Round(time.Millisecond), needed)
-	}
+
 	for _, i := range idx {
 		in := w.inst[i]
 		if in.local {
@@ -308,8 +303,6 @@ func (w *c03TWorld) waitAlive(idx []int) {
 // Recoveries that had to wait for the ping loop, and those that completed within the
 // budget (process-wide; the units run their cases sequentially).
 var c03RecTried, c03RecOK int
-
-var c03Debug = verifkit.EnvInt("c03_debug", 0) == 1
 
 // c03NoRecovery: when not a single recovery completed in >= 3 attempts the outage clause
 // was not exercised.  That is no verdict (wall-clock budgets only) but no pass either: the
